@@ -152,5 +152,10 @@ pub(crate) trait CMsgHdr {
     fn len(&self) -> usize;
 }
 
+// Must hold every control message the kernel may attach to one received datagram with the options
+// enabled in `UdpSocketState::new`. Worst case on Linux (IPv4-mapped peer on a dual-stack socket):
+// SCM_TIMESTAMPNS (32) + UDP_GRO (24) + IPV6_PKTINFO (40) + IP_PKTINFO (32) + IP_TOS (24) = 152
+// bytes of `CMSG_SPACE`; a smaller buffer makes the kernel truncate the trailing messages (the ECN
+// bits of GRO batches were lost with 96).
 #[cfg(unix)]
-pub(crate) const LEN: usize = 96;
+pub(crate) const LEN: usize = 160;
